@@ -75,6 +75,7 @@ type smaWorld struct {
 	audited     []*retained // every message, as the wrapper around the state machine saw it arrive
 	hsc         <-chan diam.Conn
 	stallRun    bool // one CEA write of this run may stall while the other connection goes on
+	many        bool // many peers on one state machine, each with a handshake and little else
 }
 
 var smaHostname = "srv.dsim.example"
@@ -428,7 +429,11 @@ func (w *smaWorld) genConn(i int, nItems int) *smaConn {
 	usedDWR := map[[2]uint32]bool{}
 	for k := 0; k < nItems; k++ {
 		it := &smaItem{}
-		switch t.Pick(4, 2, 2, 2, 5, 2, 1, 1) {
+		pick := t.Pick(4, 2, 2, 2, 5, 2, 1, 1)
+		if w.many && k == 0 && pick > 1 {
+			pick = 0 // most of the many peers start with a CER that can be accepted
+		}
+		switch pick {
 		case 0:
 			it.kind = "cer"
 			it.spec = drawCERSpec(t, 1)
@@ -999,13 +1004,21 @@ func smaRun(e *Env, prop string) {
 		e.TrustWait = false // a handler is held inside a transport write while others run
 	}
 	maxItems := 12
+	maxSteps := 60
+	if prop != "C08" && !w.stallRun && t.Chance(1, 12) {
+		// a busy server: many peers, one after the other or interleaved, each with a handshake
+		// and little else (whatever the state machine keeps per handshake is kept many times)
+		nc, maxItems, maxSteps = t.Range(17, 30), 3, 120
+		w.many = true
+		e.Probe("many-connections")
+	}
 	for i := 0; i < nc; i++ {
 		c := w.genConn(i, t.Range(1, maxItems))
 		w.conns = append(w.conns, c)
 		w.lis.Connect(c.sc)
 	}
 	e.Quiesce()
-	for steps := 0; steps < 60; steps++ {
+	for steps := 0; steps < maxSteps; steps++ {
 		var live []int
 		for i, c := range w.conns {
 			if c.next < len(c.items) {
